@@ -31,6 +31,10 @@ type Counters struct{ Execs map[int]int }
 // (NodeTerms.tla).
 const ErrTrigger = "p1:13"
 
+// PanicTrigger: a processor whose A input evaluates to exactly this string
+// panics (NodeTerms.tla): user code that crashes on a valid parameter value.
+const PanicTrigger = "p1:66"
+
 func (d HData) Process() (string, error) {
 	d.Ctr.Execs[d.ID]++
 	var sb strings.Builder
@@ -39,6 +43,9 @@ func (d HData) Process() (string, error) {
 		sb.WriteString("-")
 	} else {
 		a := d.A.Value()
+		if a == PanicTrigger {
+			panic("harness processor: input " + a + " crashes this node")
+		}
 		if a == ErrTrigger {
 			// still read every input, as the contract of the harness processors says
 			if d.B != nil {
